@@ -21,7 +21,11 @@ def main():
     logging.getLogger("resonaate").setLevel(logging.CRITICAL)
     import ray
 
-    ray.init(num_cpus=4, include_dashboard=False, logging_level=logging.ERROR)
+    try:
+        ray.init(num_cpus=4, include_dashboard=False, logging_level=logging.ERROR)
+    except Exception as exc:  # noqa: BLE001 - a Ray runtime that cannot start makes this comparison inconclusive, nothing more
+        json.dump({"unavailable": repr(exc)[:300]}, open(out, "w"))
+        return
     from resonaate.physics.time.stardate import datetimeToJulianDate
     from resonaate.scenario import buildScenarioFromConfigDict
 
@@ -36,6 +40,9 @@ def main():
     con.close()
     json.dump({"truth": [[r[0], repr(r[1])] + [float(x).hex() for x in r[2:]] for r in rows], "counts": counts}, open(out, "w"))
     ray.shutdown()
+    import shutil
+
+    shutil.rmtree(tmp, ignore_errors=True)
 
 
 if __name__ == "__main__":
